@@ -13,11 +13,19 @@ if PROPS_ENV:
 PY = "/venv/bin/python" if os.path.exists("/venv/bin/python") else "python3"
 
 
+import sys as _sys
+DIR = "twins"
+if "--dir" in _sys.argv:
+    _i = _sys.argv.index("--dir")
+    DIR = _sys.argv[_i + 1]
+    del _sys.argv[_i:_i + 2]
+
+
 def run_one(name):
     tmp = tempfile.mkdtemp(prefix="twinmx-")
     try:
         shutil.copytree("/repo/src", os.path.join(tmp, "src"), ignore=shutil.ignore_patterns("__pycache__"))
-        r = subprocess.run(["patch", "-p1", "-s", "-F0", "--no-backup-if-mismatch", "-d", tmp, "-i", f"{V}/twins/{name}/patch.diff"],
+        r = subprocess.run(["patch", "-p1", "-s", "-F0", "--no-backup-if-mismatch", "-d", tmp, "-i", f"{V}/{DIR}/{name}/patch.diff"],
                            capture_output=True, text=True)
         if r.returncode != 0:
             return name, None, None, "patch failed: " + r.stdout[:200]
@@ -38,7 +46,7 @@ def run_one(name):
 
 
 def main():
-    names = sorted(n for n in os.listdir(f"{V}/twins") if os.path.exists(f"{V}/twins/{n}/meta.json"))
+    names = sorted(n for n in os.listdir(f"{V}/{DIR}") if os.path.exists(f"{V}/{DIR}/{n}/meta.json"))
     sel = [a for a in sys.argv[1:] if not a.startswith("-")]
     if sel:
         names = [n for n in names if any(n.startswith(a) for a in sel)]
@@ -48,7 +56,7 @@ def main():
     for name, hit, err, msgs in res:
         if hit is None:
             print(f"{name:8s} {msgs}"); bad += 1; continue
-        mp = f"{V}/twins/{name}/meta.json"
+        mp = f"{V}/{DIR}/{name}/meta.json"
         m = json.load(open(mp)); m["violation_in"] = hit; m["analysis_error_in"] = err
         if not PROPS_ENV:
             json.dump(m, open(mp, "w"), indent=1)
